@@ -196,8 +196,16 @@ def verify_target(db, reg, key, timeout_ms=20000, want_smt2=False, findings=(), 
         normal_exits = 0
         exits = []
         pre_models = []
+        saved_classes = {}
         for vi, (c, variant) in enumerate(variants):
             ex.cur_target = c
+            # per-variant class field overrides: {class key: {field: type}}
+            for ck_, (flds_) in saved_classes.items():
+                reg.classes[ck_]['fields'] = dict(flds_)
+            saved_classes = {}
+            for ck_, ov_ in (c.get('fields_override') or {}).items():
+                saved_classes[ck_] = dict(reg.classes[ck_]['fields'])
+                reg.classes[ck_]['fields'].update(ov_)
             st = State()
             st.fn = fi
             st.module = fi.module
